@@ -155,6 +155,10 @@ func (f *Query) UnmarshalXML(d *xml.Decoder, start xml.StartElement) error {
 		return err
 	}
 
+	if s.Form == nil {
+		// The filter form is optional.
+		s.Form = &form.Data{}
+	}
 	f.ID = s.ID
 	f.With, _ = s.Form.GetJID(fieldWith)
 	startTime, ok := s.Form.GetString(fieldStart)
